@@ -159,8 +159,12 @@ class Location(AbstractLocation, ABC):
             return False
         other_to_compare = other.reset_parent(None)
         if full_span is False:
+            # lengths count a position once per block covering it: compare positions, not block multiplicities
+            other_to_compare = other_to_compare.merge_overlapping()
             return len(
-                self.reset_parent(None).intersection(other_to_compare, match_strand=match_strand, full_span=full_span)
+                self.reset_parent(None)
+                .merge_overlapping()
+                .intersection(other_to_compare, match_strand=match_strand, full_span=full_span)
             ) == len(other_to_compare)
         else:
             return self.reset_parent(None)._full_span_interval.contains(other_to_compare._full_span_interval)
